@@ -291,7 +291,7 @@ def map_cycle_to_chain(chain_vect, subset_vect, ii):
 def map_chain_to_cycle(chain_vect, subset_vect, ii):
     """Which of all cycles does the ii-th chain contain"""
     subset_ind = map_chain_to_subset(chain_vect, ii)
-    cycle_ind = np.squeeze([map_subset_to_cycle(subset_vect, jj) for jj in subset_ind])
+    cycle_ind = np.hstack([map_subset_to_cycle(subset_vect, jj) for jj in subset_ind])
     if (len(cycle_ind) > 1) and (np.all(np.diff(cycle_ind) == 1) is False):
         # Mapped cycles are not continuous!
         raise ValueError
